@@ -11,9 +11,12 @@ def leg(name, flavour="plain", leg="", batches=1, timeout=None, parallel=1, tier
     return d
 
 PLANS = {
+    "C03": {"level": "exploration", "exhaustive": False, "legs": [leg("main")]},
     "C01": {"level": "exploration", "exhaustive": False, "legs": [leg("main")]},
     "C02": {"level": "exploration", "exhaustive": False, "legs": [leg("main"), leg("race", flavour="race", tiers=("thorough",), env={"VERIF_SMALL": "1"})]},
     "C15": {"level": "exploration", "exhaustive": False, "legs": [leg("main")]},
+    "C16": {"level": "exploration", "exhaustive": False, "legs": [leg("main")]},
+    "C19": {"level": "exploration", "exhaustive": False, "legs": [leg("main")]},
     "C18": {"level": "exploration", "exhaustive": False, "replay_flavour": "race",
             "legs": [leg("main", flavour="race", race_is_violation=True)]},
     "C20": {"level": "exploration", "exhaustive": True, "legs": [leg("main")]},
